@@ -29,7 +29,12 @@ RULES["C18"] = (
     "face and every adjacent pair removed on 12 templates, plus generated sets of triangle/quad holes that are "
     "vertex-disjoint or touch at vertices. (c) subdivide(all | face subset, 1-2 rounds), remesh.subdivide with "
     "return_index and tagged vertex attributes, subdivide_to_size(max_edge = ratio x longest edge, max_iter, "
-    "return_index), subdivide_loop(1-3 iterations), on closed and open (faces removed) meshes. Oracle: plain python "
+    "return_index), subdivide_loop(1-3 iterations), on closed and open (faces removed) meshes, half of them in an "
+    "unwelded description (exact copies, so positions coincide): a translated twin touching the original at a vertex "
+    "or lying on it, faces with private / shared duplicated corners (seam), unreferenced vertices at arbitrary "
+    "indices, the whole mesh scaled by 1e-8 / 1e-4 / 1e4; exact vertex counts (V + one per edge per round) are "
+    "required. fix_normals additionally on 2-3 bodies whose sizes differ by 1e1..1e6 (all flip subsets of "
+    "tetra+tetra/1000 enumerated). Oracle: plain python "
     "edge-incidence / union-find / signed-tetrahedron code on the raw arrays and a reference Loop step written from "
     "the docstring masks. Non-trivial: a proper non-empty re-wound subset of some body / at least one hole / a "
     "subdivision of a mesh with >= 2 bodies or an open mesh or a proper face subset."
@@ -127,7 +132,7 @@ def b_fix_normals(case, ctx):
     mbl = {None: "None", True: "True", False: "False"}[mb]
     ctx.note(
         nontrivial=bool(proper or (flip and not all(whole))),
-        cls=[f"fix_normals:{route}:mb={mbl}:bodies={min(len(comps), 3)}:{kind}", "fix_normals:" + spec_label(case["spec"]), "fix_normals:warm" if case.get("warm") else "fix_normals:cold"],
+        cls=[f"fix_normals:{route}:mb={mbl}:bodies={min(len(comps), 3)}:{kind}", "fix_normals:" + spec_label(case["spec"]), "fix_normals:warm" if case.get("warm") else "fix_normals:cold", f"fix_normals:mb={mbl}:{scale_label(case['spec'])}"],
     )
     Ff = F.copy()
     if flip:
@@ -176,6 +181,8 @@ ENUM_TEMPLATES = {
     "octa": {"parts": [{"kind": "octa", "offset": [0.0, 0.0, 0.0]}]},
     "box": {"parts": [{"kind": "box", "ext": [1.0, 2.0, 3.0], "offset": [0.0, 0.0, 0.0]}]},
     "tetra+tetra": {"parts": [{"kind": "tetra", "offset": [0.0, 0.0, 0.0]}, {"kind": "tetra", "offset": [12.0, 0.0, 0.0], "scale": 2.0}]},
+    "tetra+tetra/1000": {"parts": [{"kind": "tetra", "offset": [0.0, 0.0, 0.0]}, {"kind": "tetra", "offset": [12.0, 0.0, 0.0], "scale": 1e-3}]},
+    "octa*1000+tetra": {"parts": [{"kind": "octa", "offset": [0.0, 0.0, 0.0], "scale": 1e3}, {"kind": "tetra", "offset": [12.0, 0.0, 0.0]}]},
 }
 
 
@@ -192,8 +199,31 @@ def enum_flips(names, seed, variants=(None, True, False), stride=1, offset=0):
 
 
 @st.composite
-def flip_case(draw):
-    spec = draw(meshes.mesh_spec(kinds=CLOSED_KINDS, max_parts=3, jitter=True, disjoint=draw(st.sampled_from([True, True, False])), max_faces=120))
+def scaled_spec(draw):
+    """2-3 bodies whose sizes differ by factors 1e1 .. 1e6 (per-body decisions must not depend on absolute size)"""
+    n = draw(st.integers(2, 3))
+    exps = draw(st.lists(st.sampled_from([-3, -3, -2, -1, 0, 0, 1, 2, 3]), min_size=n, max_size=n).filter(lambda e: max(e) - min(e) >= 1))
+    parts = []
+    for i in range(n):
+        p = draw(meshes.part(CLOSED_KINDS, 120))
+        p["scale"] = 10.0 ** exps[i]
+        p["offset"] = [12.0 * i * draw(st.sampled_from([0.0, 1.0, 1.0, 100.0])), 0.0, 0.0]
+        parts.append(p)
+    return {"parts": parts}
+
+
+def scale_label(spec):
+    sc = [float(p.get("scale", 1.0)) for p in spec["parts"]]
+    r = max(sc) / min(sc)
+    return "scale_ratio" + ("<10" if r < 10 else "=1e1..1e2" if r < 1e3 else ">=1e3")
+
+
+@st.composite
+def flip_case(draw, scaled=False):
+    if scaled:
+        spec = draw(scaled_spec())
+    else:
+        spec = draw(meshes.mesh_spec(kinds=CLOSED_KINDS, max_parts=3, jitter=True, disjoint=draw(st.sampled_from([True, True, False])), max_faces=120))
     _, F = meshes.build(spec)
     nf = len(F)
     sizes = [meshes.n_faces({"parts": [p]}) for p in spec["parts"]]
@@ -239,6 +269,8 @@ def flip_case(draw):
 @subcheck("C18", "flip_enum", shards={"quick": 16, "thorough": 16})
 def s_flip_enum(ctx):
     ctx.enumerate("C18.fix_normals", enum_flips(["tetra", "octa", "tetra+tetra"], ctx.seed), label="all_flip_subsets_of_tetra_octa_tetra+tetra_x_multibody{None,True,False}")
+    ctx.enumerate("C18.fix_normals", enum_flips(["tetra+tetra/1000"], ctx.seed), label="all_flip_subsets_of_tetra+tetra/1000_x_multibody{None,True,False}")
+    ctx.enumerate("C18.fix_normals", enum_flips(["octa*1000+tetra"], ctx.seed, variants=(None, True), stride=1 if ctx.tier != "quick" else 5, offset=ctx.seed % 5 if ctx.tier == "quick" else 0), label="flip_subsets_of_octa*1000+tetra", complete=ctx.tier != "quick")
     ctx.enumerate("C18.fix_normals", enum_flips(["box"], ctx.seed, variants=(None,)), label="all_4096_flip_subsets_of_box_multibody=None")
     if ctx.tier == "quick":
         # explicit True / False on one body differ from None only in the branch taken by fix_inversion: every third subset
@@ -249,7 +281,8 @@ def s_flip_enum(ctx):
 
 @subcheck("C18", "flip_hyp", shards={"quick": 8, "thorough": 16})
 def s_flip_hyp(ctx):
-    ctx.given("C18.fix_normals", flip_case(), n={"quick": 2400, "thorough": 60000})
+    ctx.given("C18.fix_normals", flip_case(), n={"quick": 2000, "thorough": 50000})
+    ctx.given("C18.fix_normals", flip_case(scaled=True), n={"quick": 600, "thorough": 15000})
 
 
 # ------------------------------------------------------------------------------------------ fill_holes
@@ -488,7 +521,90 @@ def open_mesh(case):
             new = -np.ones(len(V), dtype=np.int64)
             new[used] = np.arange(len(used))
             V, F = V[used], new[F]
+    V, F = make_dirty(V, F, case.get("dirty"))
     return np.ascontiguousarray(V), np.ascontiguousarray(F)
+
+
+def make_dirty(V, F, d):
+    """Legitimate but unwelded descriptions of a surface (all by exact copies, so positions coincide bit for bit):
+    gscale  - the whole mesh scaled (1e-8: every vertex within tol.merge of every other)
+    twin    - a second copy of the mesh, translated so that one of its vertices lands on a vertex of the original
+              ('touch') or not translated at all ('same'): touching / coincident bodies with separate vertices
+    unweld  - k faces get private copies of their corners ('private') or share one set of copies ('patch': a patch cut
+              out along a seam of duplicated vertices)
+    extra   - unreferenced vertices (half of them copies of referenced ones), then a vertex relabelling so that they sit
+              at arbitrary indices"""
+    if not d:
+        return V, F
+    rs = np.random.RandomState(int(d.get("seed", 0)) & 0x7FFFFFFF)
+    V, F = np.array(V, dtype=np.float64), np.array(F, dtype=np.int64)
+    if d.get("gscale"):
+        V = V * float(d["gscale"])
+    if d.get("twin"):
+        i, j = int(rs.randint(len(V))), int(rs.randint(len(V)))
+        t = V[i] - V[j] if d["twin"] == "touch" else np.zeros(3)
+        F = np.vstack((F, F + len(V)))
+        V = np.vstack((V, V + t))
+    if d.get("unweld"):
+        k = min(int(d["unweld"]), len(F))
+        chosen = rs.choice(len(F), size=k, replace=False)
+        add, shared = [], {}
+        for f in chosen.tolist():
+            for c in range(3):
+                v = int(F[f, c])
+                if d.get("unweld_mode") == "patch":
+                    if v not in shared:
+                        shared[v] = len(V) + len(add)
+                        add.append(V[v])
+                    F[f, c] = shared[v]
+                else:
+                    F[f, c] = len(V) + len(add)
+                    add.append(V[v])
+        V = np.vstack((V, np.array(add).reshape((-1, 3))))
+    if d.get("extra"):
+        m = int(d["extra"])
+        lo, hi = V.min(axis=0), V.max(axis=0)
+        pts = [V[int(rs.randint(len(V)))] if q % 2 == 0 else lo + rs.uniform(0, 1, 3) * (hi - lo) for q in range(m)]
+        V = np.vstack((V, np.array(pts).reshape((-1, 3))))
+        perm = rs.permutation(len(V))
+        V2 = np.empty_like(V)
+        V2[perm] = V
+        V, F = V2, perm[F]
+    return V, F
+
+
+def dirty_label(case):
+    d = case.get("dirty")
+    if not d:
+        return "dirty=no"
+    keys = [k for k in ("gscale", "twin", "unweld", "extra") if d.get(k)]
+    return "dirty=" + ("+".join(keys) or "no")
+
+
+def coincident_pairs(V):
+    """number of vertices that share their exact position with another vertex"""
+    _, inv, cnt = np.unique(np.asarray(V), axis=0, return_inverse=True, return_counts=True)
+    return int((cnt[inv.reshape(-1)] > 1).sum())
+
+
+@st.composite
+def dirty(draw, nf):
+    """-> (dirty dict or None, face count after it)"""
+    kind = draw(st.sampled_from(["no", "no", "twin", "unweld", "extra", "gscale", "mix"]))
+    if kind == "no":
+        return None, nf
+    d = {"seed": draw(st.integers(0, 2**31 - 1))}
+    if kind in ("twin", "mix") and nf <= 60:
+        d["twin"] = draw(st.sampled_from(["touch", "touch", "same"]))
+        nf *= 2
+    if kind in ("unweld", "mix"):
+        d["unweld"] = draw(st.integers(1, 8))
+        d["unweld_mode"] = draw(st.sampled_from(["private", "patch"]))
+    if kind in ("extra", "mix"):
+        d["extra"] = draw(st.integers(1, 4))
+    if kind == "gscale" or (kind == "mix" and draw(st.booleans())):
+        d["gscale"] = draw(st.sampled_from([1e-8, 1e-8, 1e-4, 1e4]))
+    return d, nf
 
 
 def mesh_class(faces, nbodies_closed=None):
@@ -523,7 +639,7 @@ def b_subdivide(case, ctx):
     proper = subset is not None and 0 < len(set(subset)) < nf
     rounds = int(case.get("rounds", 1)) if subset is None else 1
     sub_l = "all" if subset is None else ("empty" if not subset else ("proper" if proper else "every_face_listed"))
-    ctx.note(nontrivial=bool(nb >= 2 or not closed or proper), cls=[f"subdivide:{cls}:{sub_l}", "subdivide:" + spec_label(case["spec"]), f"subdivide:rounds={rounds}"])
+    ctx.note(nontrivial=bool(nb >= 2 or not closed or proper), cls=[f"subdivide:{cls}:{sub_l}", "subdivide:" + spec_label(case["spec"]), f"subdivide:rounds={rounds}", "subdivide:" + dirty_label(case), "subdivide:coincident_vertices" if coincident_pairs(V) else "subdivide:distinct_vertices"])
     scale = float(np.abs(V).max())
     mesh = trimesh.Trimesh(vertices=V.copy(), faces=F.copy(), process=False)
     # tagged vertex attributes: (i, i*i) identifies the two end points of the edge a new vertex was put on
@@ -544,6 +660,12 @@ def b_subdivide(case, ctx):
     want_f = nf * 4**rounds if subset is None else nf + 3 * nsub
     check(len(new) == want_f, f"C18.subdivide|face_count|{tag}", f"{len(new)} faces, expected {want_f}")
     check(all(0 <= v < len(Vn) for f in new for v in f) and all(len(set(f)) == 3 for f in new), f"C18.subdivide|face_indices|{tag}", "index out of range or repeated inside a face")
+    # one new vertex per edge (edges by vertex INDEX: coincident positions stay separate vertices), nothing dropped
+    ne = len(R.undirected_edges(faces0 if subset is None else [faces0[i] for i in sorted(set(subset))]))
+    want_v, e_k, f_k = nv, ne, nf
+    for _ in range(rounds):
+        want_v, e_k, f_k = want_v + e_k, 2 * e_k + 3 * f_k, 4 * f_k
+    check(len(Vn) == want_v, f"C18.subdivide|vertex_count|{tag}", f"{nv} vertices, {ne} edges subdivided {rounds}x -> {len(Vn)} vertices, expected {want_v}")
     a0, a1 = R.area(V, F), R.area(Vn, Fn)
     check(abs(a1 - a0) <= rounds * area_tol(Vn, Fn, len(new)), f"C18.subdivide|area|{tag}", f"area {a0!r} -> {a1!r}")
     check(abs(float(res.area) - a0) <= rounds * area_tol(Vn, Fn, len(new)) + 64 * EPS * a0, f"C18.subdivide|area_property|{tag}", f"area {a0!r} -> result.area {float(res.area)!r}")
@@ -602,7 +724,11 @@ def open_spec(draw, max_parts=2, max_faces=100, p_open=0.5, kinds=None):
     remove = []
     if draw(st.floats(0, 1)) < p_open:
         remove = draw(st.lists(st.integers(0, nf - 1), min_size=1, max_size=max(1, min(6, nf - 3)), unique=True))
-    return {"spec": spec, "remove": sorted(remove), "pseed": draw(st.sampled_from([0, 1])) * draw(st.integers(1, 2**31 - 1))}, nf - len(remove)
+    case = {"spec": spec, "remove": sorted(remove), "pseed": draw(st.sampled_from([0, 1])) * draw(st.integers(1, 2**31 - 1))}
+    d, nf2 = draw(dirty(nf - len(remove)))
+    if d:
+        case["dirty"] = d
+    return case, nf2
 
 
 @st.composite
@@ -661,7 +787,7 @@ def b_to_size(case, ctx):
     mixed = len(set(need.tolist())) > 1
     ctx.note(
         nontrivial=bool(nb >= 2 or not closed or mixed),
-        cls=[f"to_size:{cls}:{'raise' if expect_raise else 'ok'}:need={min(needed, 4)}", "to_size:mixed_depth" if mixed else "to_size:uniform_depth", "to_size:expect_raise" if expect_raise else "to_size:expect_ok", "to_size:" + spec_label(case["spec"]), f"to_size:return_index={ret_index}"],
+        cls=[f"to_size:{cls}:{'raise' if expect_raise else 'ok'}:need={min(needed, 4)}", "to_size:mixed_depth" if mixed else "to_size:uniform_depth", "to_size:expect_raise" if expect_raise else "to_size:expect_ok", "to_size:" + spec_label(case["spec"]), f"to_size:return_index={ret_index}", "to_size:" + dirty_label(case)],
     )
     if needed > 5:
         return  # generator bound: at most 4^5 children per face
@@ -682,6 +808,10 @@ def b_to_size(case, ctx):
     res, index = (out if ret_index else (out, None))
     Vn, Fn = np.asarray(res.vertices), np.asarray(res.faces)
     new = R.faces_list(Fn)
+    # the soup is compact (no unused vertices) and the Trimesh method hands on what the function computed
+    check(len(np.unique(Fn)) == len(Vn), f"C18.to_size|unreferenced_vertices_in_result|{tag}", f"{len(Vn)} vertices, {len(np.unique(Fn))} referenced")
+    fv, ff = remesh.subdivide_to_size(V.copy(), F.copy(), max_edge=max_edge, max_iter=max_iter)[:2]
+    check(np.asarray(fv).tobytes() == Vn.tobytes() and np.array_equal(ff, Fn), f"C18.to_size|method_differs_from_function|{tag}", f"function: {len(fv)} vertices {len(ff)} faces, method: {len(Vn)} vertices {len(Fn)} faces")
     check(all(0 <= v < len(Vn) for f in new for v in f) and all(len(set(f)) == 3 for f in new), f"C18.to_size|face_indices|{tag}", "index out of range or repeated inside a face")
     Ln = R.edge_lengths(Vn, Fn)
     check(bool((Ln <= max_edge * (1 + 8 * EPS)).all()), f"C18.to_size|edge_longer_than_max_edge|{tag}", lambda: f"{txt}: longest edge in the result {float(Ln.max())!r}")
@@ -775,7 +905,7 @@ def b_loop(case, ctx):
     kind = "closed" if closed else ("bnd_nonmanifold" if nonmanifold_bnd else ("bnd_chord" if chord else "bnd_simple"))
     if unref:
         kind += "+unreferenced_vertex"
-    ctx.note(nontrivial=bool(nb >= 2 or not closed), cls=[f"loop:{kind}:bodies={min(nb, 3)}", f"loop:iterations={it}", "loop:" + spec_label(case["spec"]), "loop:arg_none" if case.get("iterations") is None else "loop:arg_int"])
+    ctx.note(nontrivial=bool(nb >= 2 or not closed), cls=[f"loop:{kind}:bodies={min(nb, 3)}", f"loop:iterations={it}", "loop:" + spec_label(case["spec"]), "loop:arg_none" if case.get("iterations") is None else "loop:arg_int", "loop:" + dirty_label(case)])
     mesh = trimesh.Trimesh(vertices=V.copy(), faces=F.copy(), process=False)
     try:
         res = mesh.subdivide_loop(iterations=case.get("iterations"))
@@ -787,6 +917,10 @@ def b_loop(case, ctx):
     new = R.faces_list(Fn)
     check(np.asarray(mesh.vertices).tobytes() == V.tobytes() and np.asarray(mesh.faces).tobytes() == F.tobytes(), f"C18.loop|source_mesh_altered|{kind}", "")
     check(len(new) == nf * 4**it, f"C18.loop|face_count|{kind}", f"{len(new)} vs {nf}*4^{it}")
+    want_v, e_k, f_k = nv, len(R.undirected_edges(faces0)), nf
+    for _ in range(it):
+        want_v, e_k, f_k = want_v + e_k, 2 * e_k + 3 * f_k, 4 * f_k
+    check(len(Vn) == want_v, f"C18.loop|vertex_count|{kind}", f"{nv} vertices and {len(R.undirected_edges(faces0))} edges, {it} iterations -> {len(Vn)} vertices, expected {want_v}")
     check(all(0 <= v < len(Vn) for f in new for v in f) and all(len(set(f)) == 3 for f in new), f"C18.loop|face_indices|{kind}", "")
     check(R.is_closed(new) == closed and bool(res.is_watertight) == closed, f"C18.loop|watertight|{kind}", f"closed {closed} -> {R.is_closed(new)}")
     check(R.is_consistent(new), f"C18.loop|winding|{kind}", "")
@@ -873,6 +1007,16 @@ REQUIRED_CLASSES["C18"] = [
     "holes:tri:many:touch1",
     "holes:tri+quad:many:disjoint",
     "holes:bodies=1:genus=1:exact",
+    "fix_normals:mb=None:scale_ratio>=1e3",
+    "fix_normals:mb=True:scale_ratio>=1e3",
+    "subdivide:dirty=twin",
+    "subdivide:dirty=unweld",
+    "subdivide:dirty=extra",
+    "subdivide:dirty=gscale",
+    "subdivide:coincident_vertices",
+    "to_size:dirty=twin",
+    "loop:dirty=unweld",
+    "loop:dirty=extra",
     "subdivide:closed:bodies=2:all",
     "subdivide:open:bodies=1:proper",
     "subdivide:rounds=2",
